@@ -116,6 +116,9 @@ func (c04) Gen(seed uint64, run int, tier string) *Plan {
 				a.D = 100
 			}
 			p.Actions = append(p.Actions, a)
+			if p.Policy.Name == "atomic" && r.Intn(10) == 0 {
+				p.Actions = append(p.Actions, Action{Kind: "task", A: o, B: d, T: "again"})
+			}
 		case x < 55:
 			sz := []int{0, 1, 2, 100, 4096, 70000}[r.Intn(6)]
 			p.Actions = append(p.Actions, Action{Kind: "upload", A: o, B: d, D: sz})
@@ -158,6 +161,8 @@ type c04State struct {
 	// upload reassembly per demon
 	chunks map[int]map[uint32]*c04File
 	// SMB pivot chain below agent 0 (not in w.Demons: these agents never check in themselves)
+	last  map[int]*c04Last       // per demon: the latest plain task (for "again")
+	again map[int]map[uint32]int // per demon: how often a request id was sent again
 	piv        []*world.Demon
 	pfifo      map[*world.Demon][]uint32       // request ids issued, in order, not yet seen at the agent
 	pdelivered map[*world.Demon]map[uint32]int // how often each id emerged at the agent
@@ -184,23 +189,36 @@ func (st *c04State) issue(a Action) []c04Entry {
 	var rid uint32
 	fmt.Sscanf(tid, "%x", &rid)
 	e := c04Entry{rid: rid, taskID: tid, producer: a.A % len(w.Operators)}
+	di := a.B % len(w.Demons)
+	if a.Kind == "task" && a.T == "again" {
+		// the client sends the package of this agent's latest plain task once more, TaskID and all,
+		// while the first copy may still be queued or unanswered: it is one more task to hand out
+		st.taskN--
+		if l := st.last[di]; l != nil {
+			l.resend()
+			st.again[di][l.e.rid]++
+			st.res.Probe("repeated-task-packages")
+			return []c04Entry{l.e}
+		}
+		return nil
+	}
 	switch a.Kind {
 	case "task":
+		defer func() {
+			ee, oo, aa, dd := e, op, a, d
+			st.last[di] = &c04Last{e: ee, resend: func() { st.sendTask(oo, dd, ee.taskID, aa) }}
+		}()
 		switch a.C % 4 {
 		case 0:
 			e.cmd = world.CmdSleep
-			op.Task(d.NameID(), tid, world.CmdSleep, "sleep", map[string]any{"Arguments": fmt.Sprintf("%d;%d", a.D%1000, a.D%90)})
 		case 1:
 			e.cmd = world.CmdFS
-			path := "C:\\" + strings.Repeat("d", a.D)
-			op.Task(d.NameID(), tid, world.CmdFS, "cd", map[string]any{"SubCommand": "cd", "Arguments": path})
 		case 2:
 			e.cmd = world.CmdProc
-			op.Task(d.NameID(), tid, world.CmdProc, "proc kill", map[string]any{"ProcCommand": "7", "Args": fmt.Sprint(1000 + a.D%50000)})
 		case 3:
 			e.cmd = world.CmdCheckin
-			op.Task(d.NameID(), tid, world.CmdCheckin, "checkin", nil)
 		}
+		st.sendTask(op, d, tid, a)
 		return []c04Entry{e}
 	case "upload":
 		content := make([]byte, a.D)
@@ -220,6 +238,25 @@ func (st *c04State) issue(a Action) []c04Entry {
 	return nil
 }
 
+type c04Last struct {
+	e      c04Entry
+	resend func()
+}
+
+// sendTask sends the operator package of a "task" action (C selects the command).
+func (st *c04State) sendTask(op *world.Operator, d *world.Demon, tid string, a Action) {
+	switch a.C % 4 {
+	case 0:
+		op.Task(d.NameID(), tid, world.CmdSleep, "sleep", map[string]any{"Arguments": fmt.Sprintf("%d;%d", a.D%1000, a.D%90)})
+	case 1:
+		op.Task(d.NameID(), tid, world.CmdFS, "cd", map[string]any{"SubCommand": "cd", "Arguments": "C:\\" + strings.Repeat("d", a.D)})
+	case 2:
+		op.Task(d.NameID(), tid, world.CmdProc, "proc kill", map[string]any{"ProcCommand": "7", "Args": fmt.Sprint(1000 + a.D%50000)})
+	case 3:
+		op.Task(d.NameID(), tid, world.CmdCheckin, "checkin", nil)
+	}
+}
+
 func (c04) Exec(p *Plan, dir string) *Result {
 	res := &Result{}
 	r := genRand(p.Seed, "C04x", p.Run)
@@ -231,7 +268,9 @@ func (c04) Exec(p *Plan, dir string) *Result {
 		return res
 	}
 	st := &c04State{w: w, res: res, fifo: map[int][]c04Entry{}, delivered: map[int]map[uint32]int{}, issued: map[int]map[uint32]bool{}, chunks: map[int]map[uint32]*c04File{}}
+	st.last, st.again = map[int]*c04Last{}, map[int]map[uint32]int{}
 	for i := range w.Demons {
+		st.again[i] = map[uint32]int{}
 		st.delivered[i] = map[uint32]int{}
 		st.issued[i] = map[uint32]bool{}
 		st.chunks[i] = map[uint32]*c04File{}
@@ -472,7 +511,7 @@ func (st *c04State) checkBatch(di int, c *simrt.HTTPCall, ts []world.Task, seque
 		// duplicate?
 		if t.Cmd != world.CmdMemFile {
 			st.delivered[di][t.RID]++
-			if st.delivered[di][t.RID] > 1 {
+			if st.delivered[di][t.RID] > 1+st.again[di][t.RID] {
 				res.Violate("C04", "duplicate", "task-delivered-twice", fmt.Sprintf("agent %s: task rid=%x cmd=%d handed out %d times", d.NameID(), t.RID, t.Cmd, st.delivered[di][t.RID]), w.Sim)
 				return
 			}
